@@ -37,6 +37,10 @@
   interleavings are not covered by the all-interleavings theorems. That part is explored by the trace co-simulation: real threads under a deterministic scheduler
   (preemption-bounded DFS + random schedules), every event replayed on the Lean interleaving
   semantics (`Th.step`), ownership oracle after every returned allocation and at quiescent ends.
+
+  * `single_row_updates_match_source` — the mask and the update closure of `Bitfield::toggle`
+    (orders 0..2) and the mask test of `Bitfield::is_zero` are re-derived from the Rust source on
+    every run (`tools/rs2lean.py`, `Gen/Toggle.lean`) and proved equal to the model's.
 -/
 import LLFreeV.Props.C12
 import LLFreeV.Proofs.UpperInit
@@ -44,6 +48,7 @@ import LLFreeV.Proofs.OwnThreads
 import LLFreeV.Proofs.OwnLowerThreads
 import LLFreeV.Proofs.OwnUpperThreads
 import LLFreeV.Props.C06
+import LLFreeV.Proofs.GenToggle
 namespace LLFree.C01
 open LLFree
 
@@ -205,5 +210,21 @@ theorem conc_get_returns_unheld_block (c : Cfg) (ok : GeomOk16 c.geom) (gh : Gh)
 /-- the premises are satisfiable: the freshly initialised tiny allocator is a quiescent state -/
 example : ∃ (c : Cfg) (m : Mem), GeomOk16 c.geom ∧ LowerInv c m :=
   ⟨C06.cTiny, C06.mTiny, ⟨⟨by decide, ⟨0, rfl⟩⟩, by decide⟩, C06.tiny_lower_inv⟩
+
+/-- **The single-row bit updates of the model are those of the current source**: the mask and the
+    update closure of `Bitfield::toggle` for orders 0..2 (the step that claims or releases the bits
+    of a block inside one row — in particular for a targeted allocation) and the mask test of
+    `Bitfield::is_zero` are regenerated from `core/src/bitfield.rs` on every run (`Gen/Toggle.lean`)
+    and equal the model's: a block is claimed only if *all* its bits are free, released only if all
+    are set. -/
+theorem single_row_updates_match_source (bits sh : Nat) (hb : bits ≤ 64) (hs : sh < 64) (e mask : BitVec 64) (expected : Bool) :
+    Gen.B.toggleMask (BitVec.ofNat 64 bits) (BitVec.ofNat 64 sh) = bitMask bits sh ∧
+    Gen.B.toggleSmall e mask expected =
+      (if expected then (if e &&& mask = mask then some (e &&& ~~~mask) else none)
+       else (if e &&& mask = 0 then some (e ||| mask) else none)) ∧
+    Gen.B.isZeroMask (BitVec.ofNat 64 bits) (BitVec.ofNat 64 sh) = bitMask bits sh ∧
+    Gen.B.isZeroRow e mask = decide ((e &&& mask) = 0) :=
+  ⟨GenTree.toggleMask_eq bits sh hb hs, GenTree.toggleSmall_eq e mask expected, GenTree.isZeroMask_eq bits sh hb hs,
+    GenTree.isZeroRow_eq e mask⟩
 
 end LLFree.C01
